@@ -453,7 +453,7 @@ def plan(tier, seed):
     for fname, k in map_faults("two-maps-reduce"):
         if k == 1:
             units.append(("map-sequential-and-thread-pool", ("profile", {"pipe": "two-maps-reduce"}, {"func": fname, "call": 1, "exc": "ValueError"})))
-    stages = ["N1", "N2", "N2-decorated"] if tier == "quick" else ["N1", "N2", "N2-decorated", "N3"]
+    stages = ["N1", "N2", "N2-decorated", "N2-special-names"] if tier == "quick" else ["N1", "N2", "N2-decorated", "N2-special-names", "N3"]
     for st in stages:
         n = sum(1 for _ in c02.specs_for(st))
         nch = max(1, n // 40)
